@@ -151,6 +151,10 @@ def ex_docs():
          'WORD'),
         ('in_skip', ['cat', A, '\n', ['skip_region', '\\foo{no@H@}'], X(T('Yes')), ' ', B], 'foo',
          'WORD'),
+        # the skipped region is the very first thing of the text (token number 0)
+        ('skip_first', ['cat', ['skip_region', '\\foo{no@H@}'], X(T('Yes')), ' ', B], 'foo', 'WORD'),
+        ('skip_first_input', ['cat', ['skip_region', '\\input{pre@H@}'], A, ' ',
+                              ['footnote', T('body'), 'input']], 'include,input', 'NAME'),
         ('in_ltskip', ['cat', A, ' ', ['ltskip', ['cat', T('\\foo{no@H@}')]], ' ', X(T('Yes'))],
          'foo', 'WORD'),
         ('nested_arg', ['cat', A, ' ', ['unknown', 'textbf', ['cat', T('b '), X(T('In@H@'))]], ' ',
@@ -180,7 +184,9 @@ MULTI = [
 
 def build_ex(item):
     name, spec, extr, cls = next(d for d in ex_docs() if d[0] == item['doc'])
-    spec = ['cat', family.PREAMBLE, spec]
+    if not name.startswith('skip_first'):
+        # (skip_first*: the skipped region has to be the very first token of the text)
+        spec = ['cat', family.PREAMBLE, spec]
     pre, post = sketch.split(spec)
     opts = dict(family.OPTS, extr=extr)
     twin = bool(item.get('twin'))
